@@ -14,13 +14,13 @@ NORMAL = ("normal",)
 class LoopCtx:
     """What a loop invariant / variant may talk about."""
 
-    def __init__(self, ex, st, entry, i, seq, extra=None):
+    def __init__(self, ex, st, entry, i, seq, extra=None, length=None):
         self.ex = ex
         self.st = st
         self.entry = entry
         self.i = i
         self.seq = seq
-        self.n = z3.Length(seq)
+        self.n = length if length is not None else z3.Length(seq)
         self.extra = extra or {}
 
     def var(self, name):
@@ -105,6 +105,16 @@ class StmtMixin:
                     nxt = []
                     for s2, o in branches:
                         nxt.extend(self.assign(s2, t, x) if o is NORMAL else [(s2, o)])
+                    branches = nxt
+                return branches
+            if v.kind == "ref":
+                # unpacking a tuple object: its elements, in order (the arity is Python's business: a mismatch raises there)
+                seq = st.get("list", v.t)
+                branches = [(st, NORMAL)]
+                for k, t in enumerate(tgt.elts):
+                    nxt = []
+                    for s2, o in branches:
+                        nxt.extend(self.assign(s2, t, V("ref", seq[k])) if o is NORMAL else [(s2, o)])
                     branches = nxt
                 return branches
             raise Unsupported("unpacking of %r" % (v,))
@@ -223,6 +233,33 @@ class StmtMixin:
         return out
 
     # -- loops -------------------------------------------------------------------------------------------
+    def iter_desc(self, st, it):
+        """(primary sequence, number of iterations, element(i) as a V) of an iterable the loops of icontract use."""
+        if it.kind == "ref" and it.py == "dict_items":
+            seq = st.get("dord", it.t)
+            return seq, z3.Length(seq), (lambda ex, s, i, d=it.t, q=seq: V("static", None, (V("ref", q[i], ex.registry.key_hint(it)), V("ref", z3.Select(s.get("dval", d), q[i])))))
+        if it.kind == "ref" and it.py == "dict_keys":
+            seq = st.get("dord", it.t)
+            return seq, z3.Length(seq), None
+        if it.kind == "static" and isinstance(it.py, Marker) and it.py.name == "enumerate":
+            seq, n, inner = self.iter_desc(st, it.py.payload)
+            el = inner or (lambda ex, s, i, q=seq, src=it.py.payload: V("ref", q[i], ex.registry.elem_hint(src)))
+            return seq, n, (lambda ex, s, i: V("static", None, (vint(i), el(ex, s, i))))
+        if it.kind == "static" and isinstance(it.py, Marker) and it.py.name == "range":
+            start, stop, step = it.py.payload
+            up = z3.simplify(step).as_long() == 1
+            n = z3.If(up, z3.If(stop > start, stop - start, 0), z3.If(start > stop, start - stop, 0))
+            return z3.Empty(SeqI), n, (lambda ex, s, i: vint(start + i if up else start - i))
+        if it.kind == "static" and isinstance(it.py, Marker) and it.py.name == "zip":
+            parts = [self.iter_desc(st, x) for x in it.py.payload]
+            n = parts[0][1]
+            for p in parts[1:]:
+                n = z3.If(p[1] < n, p[1], n)
+            els = [(p[2] or (lambda ex, s, i, q=p[0], src=x: V("ref", q[i], ex.registry.elem_hint(src)))) for p, x in zip(parts, it.py.payload)]
+            return parts[0][0], n, (lambda ex, s, i: V("static", None, tuple(e(ex, s, i) for e in els)))
+        seq = self.seq_of(st, it)
+        return seq, z3.Length(seq), None
+
     def loop_ordinal(self, stmt, key):
         """Ordinal of this `for` among the loops of the unit with the same iterable text, in source order."""
         if not hasattr(self, "_loop_ord"):
@@ -273,20 +310,13 @@ class StmtMixin:
             raise Unsupported("loop over %s has no invariant in the sidecar spec (key %r)" % (ast.unparse(stmt.iter), key))
         if hasattr(lspec, "source"):
             seq, binder = lspec.source(self, st, it)
-        elif it.kind == "ref" and it.py == "dict_items":
-            seq = st.get("dord", it.t)
-            binder = lambda ex, s, i, d=it.t, q=seq: V("static", None, (V("ref", q[i], ex.registry.key_hint(it)), V("ref", z3.Select(s.get("dval", d), q[i]))))
-        elif it.kind == "ref" and it.py == "dict_keys":
-            seq, binder = st.get("dord", it.t), None
-        elif it.kind == "static" and isinstance(it.py, Marker) and it.py.name == "enumerate":
-            seq = self.seq_of(st, it.py.payload)
-            binder = lambda ex, s, i, q=seq, src=it.py.payload: V("static", None, (vint(i), V("ref", q[i], ex.registry.elem_hint(src))))
+            length = z3.Length(seq)
         else:
-            seq, binder = self.seq_of(st, it), None
+            seq, length, binder = self.iter_desc(st, it)
         entry = st.copy()
         name = "loop(%s)" % key
         # 1. invariant holds on entry
-        ctx0 = LoopCtx(self, st, entry, z3.IntVal(0), seq)
+        ctx0 = LoopCtx(self, st, entry, z3.IntVal(0), seq, length=length)
         for idx, f in enumerate(lspec.inv(ctx0)):
             self.oblige(st, "%s.entry.%d" % (name, idx), f, kind="loop-entry")
         # 2. arbitrary iteration
@@ -305,7 +335,7 @@ class StmtMixin:
                         h.vars[v] = vbool(fresh("lv_" + v, B))
                     else:
                         h.vars[v] = V("ref", fresh("lv_" + v), hint if hint is not None else (old.py if old is not None and old.kind == "ref" else None))
-            for fld, ref in (lspec.modifies(LoopCtx(self, s, entry, None, seq)) if hasattr(lspec, "modifies") else []):
+            for fld, ref in (lspec.modifies(LoopCtx(self, s, entry, None, seq, length=length)) if hasattr(lspec, "modifies") else []):
                 if callable(ref):
                     old = h.field(fld)
                     new = fresh("lmodset_" + fld.replace(":", "_"), field_sort(fld))
@@ -327,8 +357,8 @@ class StmtMixin:
         out = []
         it_st = havoc(st)
         i = fresh("i")
-        it_st.assume(i >= 0, i < z3.Length(seq))
-        ctx = LoopCtx(self, it_st, entry, i, seq)
+        it_st.assume(i >= 0, i < length)
+        ctx = LoopCtx(self, it_st, entry, i, seq, length=length)
         it_st.assume(*lspec.inv(ctx))
         it_st.path.append("%s:iter" % name)
         it_st.ghost["i:" + key] = i
@@ -337,7 +367,7 @@ class StmtMixin:
             for s1, o1 in self.assign(it_st, stmt.target, elem):
                 for s2, o2 in self.exec_block(s1, stmt.body):
                     if o2 is NORMAL or o2[0] == "continue":
-                        c2 = LoopCtx(self, s2, entry, i + 1, seq)
+                        c2 = LoopCtx(self, s2, entry, i + 1, seq, length=length)
                         for idx, f in enumerate(lspec.inv(c2)):
                             self.oblige(s2, "%s.preserve.%d" % (name, idx), f, kind="loop-preserve")
                         self.cover.add(name + ".iter")
@@ -348,10 +378,10 @@ class StmtMixin:
                         out.append((s2, o2))
         # 3. exit
         ex_st = havoc(st)
-        ctxe = LoopCtx(self, ex_st, entry, z3.Length(seq), seq)
+        ctxe = LoopCtx(self, ex_st, entry, length, seq, length=length)
         ex_st.assume(*lspec.inv(ctxe))
         ex_st.path.append("%s:exit" % name)
-        ex_st.ghost["i:" + key] = z3.Length(seq)
+        ex_st.ghost["i:" + key] = length
         if self.feasible(ex_st):
             out.append((ex_st, NORMAL))
         return out
